@@ -304,7 +304,38 @@ def run_window(ctx, name, a, r, lookups=(), tid=TID, ts0=100, code_name=None, lo
 
 
 def pieces_equal(p1, p2):
-    """equality of two templates as a condition: False | True | SymBool"""
+    """equality of two templates as a condition: False | True | SymBool.  A structural mismatch (a literal on one side, a
+    rendered value on the other) is re-examined after the values the path condition pins to one constant have been
+    replaced by their text."""
+    r = _pieces_equal(p1, p2)
+    if r is False and any(isinstance(x, Atom) for x in list(p1) + list(p2)):
+        q1, q2 = _pinned_to_text(p1), _pinned_to_text(p2)
+        if q1 is not None and q2 is not None and (q1 != list(p1) or q2 != list(p2)):
+            return _pieces_equal(q1, q2)
+    return r
+
+
+def _pinned_to_text(ps):
+    from vxlib.symx.core import eng
+    try:
+        en = eng()
+        m = en.ensure_model()
+    except BaseException:       # noqa
+        return None
+    out = []
+    for x in ps:
+        if isinstance(x, Atom) and x.kind in ('d', 'x', 'fmt', 'chr'):
+            v = m.eval(x.term, model_completion=True)
+            if not en.feasible(x.term != v):
+                x = x.render(m)
+        if out and isinstance(x, str) and isinstance(out[-1], str):
+            out[-1] += x
+        else:
+            out.append(x)
+    return out
+
+
+def _pieces_equal(p1, p2):
     from vxlib.symx.values import bytes_items_eq, mkb
     if len(p1) != len(p2):
         return False
